@@ -260,6 +260,7 @@ def overwrite_policy(V):
     mode = (OverwriteExistingFile.ALWAYS, OverwriteExistingFile.SKIP)[V.choice("mode", 2)]
     exists = V.choice("file_exists", 2) == 1
     other = V.choice("other_writer_in_between", 2) == 1
+    default_name = V.choice("file_name", 2) == 1  # explicit path / None (name derived from the scenario id)
     ff = FileFormat.PROTOBUF if is_pb else FileFormat.XML
     tmp = tempfile.mkdtemp(prefix="c15_")
     keep_etree = wr.etree
@@ -276,8 +277,34 @@ def overwrite_policy(V):
         w = CommonRoadFileWriter(sc, pps, a[0], a[1], a[2], a[3], None, 3, ff)
         if other:
             CommonRoadFileWriter(sc, pps, "x", "y", "z", {Tag.URBAN}, None, 9, FileFormat.XML if is_pb else FileFormat.PROTOBUF)
-        path = os.path.join(tmp, "target")
         sentinel = b"<untouched/>\n"
+        if default_name:
+            # no file name given: the writer derives one from the scenario id in the working directory; every name it could
+            # derive exists beforehand (or none does)
+            work = os.path.join(tmp, "cwd")
+            os.makedirs(work)
+            candidates = [os.path.join(work, str(sc.scenario_id) + sfx) for sfx in ("", ".xml", ".pb")]
+            stamps = {}
+            if exists:
+                for c in candidates:
+                    with open(c, "wb") as f:
+                        f.write(sentinel)
+                    stamps[c] = os.stat(c).st_mtime_ns
+            here = os.getcwd()
+            os.chdir(work)
+            try:
+                getattr(w, method)(None, mode)
+            finally:
+                os.chdir(here)
+            if exists and mode is OverwriteExistingFile.SKIP:
+                V.prove("SKIP leaves an existing file byte-for-byte untouched (default file name)",
+                        sorted(os.listdir(work)) == sorted(os.path.basename(c) for c in candidates) and
+                        all(open(c, "rb").read() == sentinel and os.stat(c).st_mtime_ns == stamps[c] for c in candidates))
+            else:
+                written = [c for c in candidates if os.path.isfile(c) and open(c, "rb").read() != sentinel]
+                V.prove("the file is (over)written with the writer's own content (default file name)", len(written) == 1 and content(written[0]) == want)
+            return
+        path = os.path.join(tmp, "target")
         if exists:
             with open(path, "wb") as f:
                 f.write(sentinel)
